@@ -85,7 +85,23 @@ Outcome run_case(const json& c, const std::string& prop) {
             order.push_back(i);
         }
     }
-    eng.register_classes(style, left_out, order);
+    // C09 histories: leaf classes registered only before the second update,
+    // so that the hash changes while pointers are alive
+    std::vector<int> late;
+    if (focus.vptr && style == 2 && c.value("history", false)) {
+        for (int x : c.value("late", std::vector<int>())) {
+            static const int leaves[] = {index_of<G>, index_of<E>,
+                                         index_of<F>, index_of<VY>};
+            int k = leaves[x % 4];
+            if (std::find(late.begin(), late.end(), k) == late.end()) {
+                late.push_back(k);
+            }
+        }
+    }
+    auto is_late = [&](int k) {
+        return std::find(late.begin(), late.end(), k) != late.end();
+    };
+    eng.register_classes(style, left_out, order, late);
 
     // live definitions, the same tuples for every kind of a method name
     Spec s = universe_spec();
@@ -112,6 +128,9 @@ Outcome run_case(const json& c, const std::string& prop) {
                 std::find(cls.begin(), cls.end(), left_out) != cls.end()) {
                 left_out_in_defs = true;
                 continue; // keep the registry closed but for the class itself
+            }
+            if (std::any_of(cls.begin(), cls.end(), is_late)) {
+                continue; // not registered yet
             }
             live.push_back(d);
             DefSpec ds;
@@ -193,6 +212,9 @@ Outcome run_case(const json& c, const std::string& prop) {
                 args[i].s = between[(tuple_no + route_salt) % between.size()];
                 derived_static |= args[i].s != t[i] || t[i] != ms.vp[i];
                 has_left_out |= t[i] == left_out;
+            }
+            if (std::any_of(tu.t.begin(), tu.t.end(), is_late)) {
+                continue; // classes of the second phase
             }
             std::string where = me.name + "[" + me.kind + "](";
             for (std::size_t i = 0; i < arity; ++i) {
@@ -404,11 +426,17 @@ Outcome run_case(const json& c, const std::string& prop) {
         std::vector<std::pair<int, virtual_ptr<A, P>>> pa;
         std::vector<std::pair<int, virtual_ptr<VR, P>>> pv;
         for (int d : e1::bits(s.desc[index_of<A>])) {
+            if (is_late(d)) {
+                continue;
+            }
             CallArg a{d, d + route_salt, -1};
             std::string identity;
             pa.push_back({d, eng.template make_vp<A>(a, identity)});
         }
         for (int d : e1::bits(s.desc[index_of<VR>])) {
+            if (is_late(d)) {
+                continue;
+            }
             CallArg a{d, d + route_salt + 1, -1};
             std::string identity;
             pv.push_back({d, eng.template make_vp<VR>(a, identity)});
@@ -418,6 +446,10 @@ Outcome run_case(const json& c, const std::string& prop) {
         std::vector<int> d2 = c.value("defs2_m1", std::vector<int>());
         std::vector<int> d2v = c.value("defs2_m1v", std::vector<int>());
         eng.clear_definitions();
+        eng.register_late(late);
+        if (!late.empty()) {
+            o.classes.push_back("classes_added_before_second_update");
+        }
         Spec s2 = universe_spec();
         for (std::size_t m = 0; m < eng.methods.size(); ++m) {
             auto& me = eng.methods[m];
